@@ -19,7 +19,8 @@
    rules below (the as-designed data flow); TLC checks that `bad` is unreachable.                                 *)
 EXTENDS Naturals, Sequences, FiniteSets, TLC, Json
 
-Apis == {"parse", "emit", "doctrans", "sync", "sync_properties", "sync_properties_eval", "gen_file", "gen_prepend", "exmod", "exmod_dry"}
+Apis == {"parse", "emit", "doctrans", "sync", "sync_properties", "sync_properties_eval", "gen_file", "gen_prepend", "exmod", "exmod_dry",
+         "route_parse", "openapi_bulk"}
 EvalMode(api) == api \in {"sync_properties_eval", "gen_prepend"}
 OutOf(api) == CASE api \in {"doctrans", "sync", "sync_properties", "sync_properties_eval", "gen_file", "gen_prepend"} -> "file"
                 [] api = "exmod" -> "dir" [] OTHER -> "none"
@@ -35,7 +36,9 @@ Allowed(api, e) ==
     [] OTHER -> TRUE
 
 \* ---- the adversary and the as-designed data flow --------------------------------------------------------------
-Slots == {"default", "type", "description", "module_stmt"}
+\* "yaml_block": the ```yml block of a route's docstring (read by the route parser / openapi_bulk with a SAFE yaml loader:
+\* python tags are rejected, nothing is constructed)
+Slots == {"default", "type", "description", "module_stmt", "yaml_block"}
 Payloads == {"benign", "call_expr", "dunder_chain", "import_stmt"}
 \* what an analysing API does with a slot: source text is parsed to an AST (compile with ONLY_AST: no exec event),
 \* defaults go through literal_eval (no exec), a type guessed from prose passes a character whitelist (letters, digits,
